@@ -59,7 +59,13 @@ fn run_case(c: &Case) -> Option<(String, String)> {
         Input::Missing => a.push(scratch.join("does-not-exist.raw").display().to_string()),
     }
     let statp = scratch.join("st.json");
-    a.extend(c.args.iter().map(|s| s.replace("@STATS", &statp.display().to_string())));
+    for x in &c.args {
+        if let Some(t) = x.strip_prefix("@TOMLTEXT:") {
+            a.push(scratch.file("checks.toml", t.replace(';', "\n").as_bytes()).display().to_string());
+        } else {
+            a.push(x.replace("@STATS", &statp.display().to_string()));
+        }
+    }
     let r = Run::new(&a).cwd(&scratch.path).run();
     if r.crashed() {
         return Some(("crash".into(), format!("signal {:?} timeout {}: {}", r.signal, r.timed_out, r.stderr_str().lines().find(|l| l.contains("panicked")).unwrap_or(""))));
@@ -75,7 +81,23 @@ fn run_case(c: &Case) -> Option<(String, String)> {
         }
     }
     let msgs = split_cli_errors(&r.stderr_str());
-    let coded: Vec<(u64, Vec<String>)> = msgs.iter().filter_map(|m| rules::parse_error_message(m)).filter(|x| !x.1.is_empty()).collect();
+    // messages that carry an error code (custom-check messages have a code but no offset)
+    let coded: Vec<(u64, Vec<String>)> = msgs
+        .iter()
+        .filter_map(|m| match rules::parse_error_message(m) {
+            Some(x) if !x.1.is_empty() => Some(x),
+            _ => {
+                let i = m.find("[E")?;
+                let j = m[i..].find(']')?;
+                let c = &m[i + 1..i + j];
+                if c.len() >= 3 && c[1..].chars().all(|ch| ch.is_ascii_digit()) {
+                    Some((0, vec![c.to_string()]))
+                } else {
+                    None
+                }
+            }
+        })
+        .collect();
     if let Some(t) = c.total {
         let out = strip_ansi(&r.stdout_str());
         let row = out.lines().find(|l| l.contains("Total Errors")).map(|l| l.split("Total Errors").nth(1).unwrap_or("").split_whitespace().next().unwrap_or("").to_string());
@@ -240,6 +262,44 @@ pub fn run(tier: Tier) -> i32 {
             a.extend(l.iter().cloned());
             cases.push(Case { label: format!("mixed codes {:?}, filter {:?}", distinct, l), input: Input::Bytes(b.clone()), args: a.clone(), exit: Exit::Code(9), total: Some(produced.len() as u64), shown: Some(Shown::Codes(l.clone())), must_not_exist: vec![] });
             cases.push(Case { label: format!("mixed codes, filter {:?} count", l), input: Input::Bytes(b.clone()), args: a, exit: Exit::Code(9), total: None, shown: Some(Shown::Exactly(n)), must_not_exist: vec![] });
+        }
+    }
+    // ---- four-digit codes: custom-check failures (E9001 / E9002) with code filters incl. their prefixes
+    {
+        let npk = clean.packets.len();
+        let scratch_toml = |cdps: usize, pht: Option<usize>| {
+            let mut t = format!("cdps = {cdps}\n");
+            if let Some(p) = pht {
+                t.push_str(&format!("triggers_pht = {p}\n"));
+            }
+            t
+        };
+        for (toml, ncustom) in [(scratch_toml(npk + 1, None), 1u64), (scratch_toml(npk + 1, Some(77)), 2), (scratch_toml(npk, None), 0)] {
+            for (filter, shown) in [
+                (vec![], ncustom),
+                (vec!["9001"], ncustom.min(1)),
+                (vec!["9002"], ncustom.saturating_sub(1)),
+                (vec!["900"], 0),
+                (vec!["90"], 0),
+                (vec!["9001", "10"], ncustom.min(1)),
+                (vec!["9002", "9001"], ncustom),
+            ] {
+                let mut a = s(&["check", "sanity", "-E", "9", "-c", "@TOML"]);
+                a.extend(stats_args.clone());
+                if !filter.is_empty() {
+                    a.push("-w".into());
+                    a.extend(filter.iter().map(|x| x.to_string()));
+                }
+                cases.push(Case {
+                    label: format!("custom-check failures {ncustom}, filter {:?}", filter),
+                    input: Input::Bytes(clean_bytes.clone()),
+                    args: a.iter().map(|x| x.replace("@TOML", &format!("@TOMLTEXT:{}", toml.replace('\n', ";")))).collect(),
+                    exit: if ncustom > 0 { Exit::Code(9) } else { Exit::Code(0) },
+                    total: Some(ncustom),
+                    shown: Some(Shown::Exactly(shown)),
+                    must_not_exist: vec![],
+                });
+            }
         }
     }
     // ---- fatal framing error at every packet index
